@@ -45,10 +45,11 @@ func (x *verifC06FSM) SetQueryMeta(m blockingquery.ResponseMeta, _ string) {
 func (m *verifC06Machine) loop(qi int, op *vs.Op, storeLevelFailed bool) {
 	f, c := m.f, m.c
 	if storeLevelFailed {
-		if m.loops >= 8 {
+		// a confirmation costs the full 200 ms wait: one per case, in a tenth of the steps (deterministic choice)
+		if m.confirmed || op.Idx%10 != 0 {
 			return
 		}
-		m.loops++
+		m.confirmed = true
 	}
 	q := m.panel[qi]
 	s2 := verifC06NewStore(f)
